@@ -741,7 +741,7 @@ func (s *levelsController) subcompact(it y.Iterator, kr keyRange, cd compactDef,
 		var tableKr keyRange
 		for ; it.Valid(); it.Next() {
 			// See if we need to skip the prefix.
-			if len(cd.dropPrefixes) > 0 && hasAnyPrefixes(it.Key(), cd.dropPrefixes) {
+			if len(cd.dropPrefixes) > 0 && hasAnyPrefixes(y.ParseKey(it.Key()), cd.dropPrefixes) {
 				numSkips++
 				updateStats(it.Value())
 				continue
@@ -925,8 +925,8 @@ func (s *levelsController) compactBuildTables(
 
 	keepTable := func(t *table.Table) bool {
 		for _, prefix := range cd.dropPrefixes {
-			if bytes.HasPrefix(t.Smallest(), prefix) &&
-				bytes.HasPrefix(t.Biggest(), prefix) {
+			if bytes.HasPrefix(y.ParseKey(t.Smallest()), prefix) &&
+				bytes.HasPrefix(y.ParseKey(t.Biggest()), prefix) {
 				// All the keys in this table have the dropPrefix. So, this
 				// table does not need to be in the iterator and can be
 				// dropped immediately.
@@ -1036,8 +1036,10 @@ func hasAnyPrefixes(s []byte, listOfPrefixes [][]byte) bool {
 }
 
 func containsPrefix(table *table.Table, prefix []byte) bool {
-	smallValue := table.Smallest()
-	largeValue := table.Biggest()
+	// The prefix is a prefix of user keys: compare it with the user keys, not with the
+	// internal keys, whose trailing timestamp bytes would take part in the comparison.
+	smallValue := y.ParseKey(table.Smallest())
+	largeValue := y.ParseKey(table.Biggest())
 	if bytes.HasPrefix(smallValue, prefix) {
 		return true
 	}
@@ -1050,7 +1052,7 @@ func containsPrefix(table *table.Table, prefix []byte) bool {
 		// In table iterator's Seek, we assume that key has version in last 8 bytes. We set
 		// version=0 (ts=math.MaxUint64), so that we don't skip the key prefixed with prefix.
 		ti.Seek(y.KeyWithTs(prefix, math.MaxUint64))
-		return bytes.HasPrefix(ti.Key(), prefix)
+		return ti.Valid() && bytes.HasPrefix(y.ParseKey(ti.Key()), prefix)
 	}
 
 	if bytes.Compare(prefix, smallValue) > 0 &&
